@@ -36,6 +36,9 @@ def run(ctx: Ctx):
     from .common import generic_lints
 
     generic_lints(ctx)
+    from .common import zip_pairing
+
+    zip_pairing(ctx, "pairing", "dimension.py", "_ElementIdShim")
     from .common import id_truthiness
 
     id_truthiness(ctx)
